@@ -78,6 +78,7 @@ def run(ctx, prop):
     distinct = set()
     work = [("witness", w) for w in F.witness_cases(prop)]
     work.append(("gen", gen.coverage_case("C11-coverage")))
+    work.append(("gen", gen.coverage_case3("C11-coverage3")))
     for i in range(n):
         work.append(("gen", fix_for_cpp(gen.gen_case(ctx.rng, c11_opts(), cid=f"C11-{ctx.seed}-{i}"))))
     configs = [("gcc", "g++", True), ("clang", "clang++", True), ("gcc", "g++", False)]
